@@ -203,6 +203,34 @@ Theorem bridge_i_loops f c s spni fmt pni data rwt dl n ch :
      end).
 Proof. repeat split; reflexivity. Qed.
 
+(* ---- Target._deactivate: one deadline for the whole release phase, the loop guard and the answers are the generated ones *)
+Theorem bridge_t_deactivate f fuel c s res data dl :
+  gen_deact_grace_ms = 1000 /\
+  t_deact_loop (S f) fuel c s res data dl =
+  (if negb (gen_deact_running (now s) dl) then (Ok tt, s) else
+   let (r, s') := t_send fuel c s None res dl in
+   match r with
+   | Err _ => (Ok tt, s')
+   | Ok None => (Ok tt, s')
+   | Ok (Some q) =>
+       if oeqb (treq_did q) (cdid c) then
+         match q with
+         | TDsl _ | TRls _ =>
+             let rls := match q with TRls _ => true | _ => false end in
+             let (r2, s2) := t_listen fuel c s' (Some (enc_rel c rls)) 0 in
+             match r2 with Crash x => (Crash x, s2) | Hang => (Hang, s2) | _ => (Ok tt, s2) end
+         | TDep d =>
+             if gen_deact_is_atn (rfmt d) then t_deact_loop f fuel c s' (Some (8, 0, [])) data dl
+             else t_deact_loop f fuel c s' (Some (0, rpni d, data)) data dl
+         | TOther _ => t_deact_loop f fuel c s' None data dl
+         end
+       else t_deact_loop f fuel c s' None data dl
+   | Crash x => (Crash x, s')
+   | Hang => (Hang, s')
+   end) /\
+  (forall grace, t_deactivate fuel c s data grace = t_deact_loop fuel fuel c s None data (now s + grace)).
+Proof. split; [reflexivity|]. split; [reflexivity|]. intros; reflexivity. Qed.
+
 (* ================================================================ src/nfc/llcp/llc.py activate, pdu.py ParameterExchange *)
 Theorem bridge_activate sec g :
   gen_lsc_text_size = len [0; 1; 2; 3] /\ gen_dpc_text_size = len [0; 1] /\
